@@ -81,6 +81,20 @@ extern "C" void h_sparse_fill(void) {
     auto it = h.find(std::make_tuple(k));
     vp_assert((it == h.end()) ? (expect == 0) : (it->second == (double)expect), "sparse.bin_counts_pixels_whose_value_over_bin_width_equals_key");
 }
+// dense (sparsefill = false) re-fill that does not accumulate: whatever the histogram held before is gone; only the bins of the limit
+// box exist afterwards and they count the pixels inside the limits.  params: 0,1 dims; 2 bin width (1); 4,5 stratification of the pixels;
+// 6 previous bin key (concrete, outside the limit box); 7,8 lower / upper limit
+extern "C" void h_sparse_refill(void) {
+    int W = vp_param(0), H = vp_param(1); int bw = vp_param(2);
+    src_gray8i s; gil::gray8_view_t v = make_gray(s, W, H);
+    gil::histogram<int> h;
+    int pk = vp_param(6), lo = vp_param(7), hi = vp_param(8);
+    h(pk) = 2;
+    gil::fill_histogram(v, h, (std::size_t)bw, false, false, false, {}, std::make_tuple(lo), std::make_tuple(hi), true);
+    int inside = 0; for (int y = 0; y < H; ++y) for (int x = 0; x < W; ++x) if ((int)v(x, y)[0] >= lo && (int)v(x, y)[0] <= hi) ++inside;
+    vp_assert(h.sum() == (double)inside, "sparse.refill_without_accumulate_forgets_previous_contents");
+    vp_assert(h.find(std::make_tuple(pk)) == h.end(), "sparse.refill_previous_bin_outside_limits_is_gone");
+}
 extern "C" void h_sparse_cumulative(void) {
     int W = vp_param(0), H = vp_param(1); int bw = vp_param(2);
     src_gray8i s; gil::gray8_view_t v = make_gray(s, W, H);
